@@ -111,13 +111,31 @@ public:
 	{
 	}
 
+	// The queued events are not copied, the new queue starts empty: every member is initialized
+	// as in the default constructor (the counters would be indeterminate otherwise).
 	HeterEventQueueBase(const HeterEventQueueBase & other)
-		: super(other)
+		:
+			super(other),
+			queueListConditionVariable(),
+			queueEmptyCounter(0),
+			queueNotifyCounter(0),
+			queueListMutex(),
+			queueList(),
+			freeListMutex(),
+			freeList()
 	{
 	}
 
 	HeterEventQueueBase(HeterEventQueueBase && other) noexcept
-		: super(std::move(other))
+		:
+			super(std::move(other)),
+			queueListConditionVariable(),
+			queueEmptyCounter(0),
+			queueNotifyCounter(0),
+			queueListMutex(),
+			queueList(),
+			freeListMutex(),
+			freeList()
 	{
 	}
 
